@@ -8,13 +8,7 @@ import FsProofs.Lemmas.WrapSimOps
 namespace Fs.WrapLemmas
 open Fs Fs.Ref Fs.TreeLemmas Fs.MemRefines
 
-/-- exception class 1: `openbin` with an invalid mode AND a climbing path — `WrapFS.openbin`
-delegates the path (IllegalBackReference) before the inner `openbin` looks at the mode (ValueError) -/
-def excOpenbin : Op → Prop
-  | .openbin p m => parseBinMode m = none ∧ PathSpec.resolve (Path.splitSlash p) = none
-  | _ => False
-
-/-- exception class 2: `copydir` into itself (the reference says IllegalDestination) when one of the
+/-- exception class (`excOpenbin`, `nulRootTest`: FsProofs/Lemmas/WrapSimLemmas.lean): `copydir` into itself (the reference says IllegalDestination) when one of the
 guards `WrapFS.copydir` evaluates BEFORE `copy_dir` fires: destination missing without `create`
 (ResourceNotFound), source missing (ResourceNotFound) or not a directory (DirectoryExpected) -/
 def excCopydir (es : Ents) : Op → Prop
@@ -80,50 +74,8 @@ theorem ref_copydir_noprefix (a b : Str) (c : Bool) (ca cb : List Name) (ha : va
     | some nb => cases nb <;> rfl
 
 
-omit hc hdir hsub in
-/-- a NUL-free call with a path that does not validate: the reference says IllegalBackReference
-(unless it is an `openbin` with an invalid mode, which it reports first) -/
-theorem ref_step_climb (v : State) (op : Op) (hv : v.closed = false) (hnn : noNul op)
-    (hinv : ∃ p ∈ op.paths, ∀ cs, validate p ≠ .ok cs) (hx : ¬ excOpenbin op) :
-    Ref.step v op = fail v .IllegalBackReference := by
-  have hbr : ∀ p ∈ op.paths, ∀ e, validate p = .err e → e = .IllegalBackReference :=
-    fun p hp e he => (validate_err_noNul (hnn p hp) he).1
-  obtain ⟨p0, hp0, hne⟩ := hinv
-  rcases QueryLemmas.op_cases op with rfl | ⟨p, m, rfl⟩ | ⟨p, hp, hno⟩ | ⟨a, b, hp⟩
-  · simp [Op.paths] at hp0
-  · simp [Op.paths] at hp0; subst hp0
-    rw [QueryLemmas.step_openbin v _ m hv]
-    cases hvp : validate p0 with
-    | ok cs => exact absurd hvp (hne cs)
-    | err e =>
-      have he := hbr p0 (by simp [Op.paths]) e hvp
-      subst he
-      by_cases hm : (parseBinMode m).isNone = true
-      · exfalso; apply hx
-        refine ⟨?_, (validate_err_noNul (hnn p0 (by simp [Op.paths])) hvp).2⟩
-        cases hpm : parseBinMode m with
-        | none => rfl
-        | some md => simp [hpm] at hm
-      · simp [hm]
-  · rw [hp] at hp0; simp at hp0; subst hp0
-    rw [QueryLemmas.step_one v op p0 hv hp hno]
-    cases hvp : validate p0 with
-    | ok cs => exact absurd hvp (hne cs)
-    | err e => rw [hbr p0 (by simp [hp]) e hvp]
-  · rw [QueryLemmas.step_two v op a b hv hp]
-    cases hva : validate a with
-    | err e => rw [hbr a (by simp [hp]) e hva]
-    | ok ca =>
-      cases hvb : validate b with
-      | err e => rw [hbr b (by simp [hp]) e hvb]
-      | ok cb =>
-        rw [hp] at hp0; simp at hp0
-        rcases hp0 with rfl | rfl
-        · exact absurd hva (hne ca)
-        · exact absurd hvb (hne cb)
-
 /-- **SubFS over the reference, exactly** -/
-theorem sub_exact (hwf : s.root.wf = true) (op : Op) (hop : op ≠ .close) (hnn : noNul op)
+theorem sub_exact (hwf : s.root.wf = true) (op : Op) (hop : op ≠ .close) (hnn : ¬ nulRootTest op)
     (hx1 : ¬ excOpenbin op) (hx2 : ¬ excCopydir es op) :
     Wrap.Sub.stepOpen (absOf sub) Ref.step s op = graft s sub (Ref.step (V es) op) := by
   have hgf : ∀ e, graft s sub (fail (V es) e) = fail s e := by
@@ -131,14 +83,14 @@ theorem sub_exact (hwf : s.root.wf = true) (op : Op) (hop : op ≠ .close) (hnn 
   have hgd : ∀ v, graft s sub (done (V es) v) = done s v := by
     intro v; have := graft_done hdir v; simpa [viewOf, V, hc] using this
   by_cases hinv : ∃ p ∈ op.paths, ∀ cs, validate p ≠ .ok cs
-  · -- a climbing path
-    have hcl : ∃ p ∈ op.paths, PathSpec.resolve (Path.splitSlash p) = none := by
+  · -- a path that does not validate (climbing, NUL)
+    have hinv' : ∃ p ∈ op.paths, ∃ e, validate p = .err e := by
       obtain ⟨p, hp, hne⟩ := hinv
       cases hv : validate p with
       | ok cs => exact absurd hv (hne cs)
-      | err e => exact ⟨p, hp, (validate_err_noNul (hnn p hp) hv).2⟩
-    rw [stepOpen_climb Ref.step sub (clean_of_cleanName hsub) s op hcl,
-      ref_step_climb (V es) op rfl hnn hinv hx1, hgf]
+      | err e => exact ⟨p, hp, e, hv⟩
+    obtain ⟨e, hW, hrest⟩ := stepOpen_invalid Ref.step sub (clean_of_cleanName hsub) s op hinv'
+    rw [hW, (hrest hnn).2 (V es) rfl hx1, hgf]
     rfl
   have hval : ∀ p ∈ op.paths, ∃ cs, validate p = .ok cs := by
     intro p hp
@@ -356,14 +308,21 @@ theorem normPath_of_resolve {p : Str} {cs : List Name} (h : resolve (splitSlash 
 path and pass the same root test — for every operation and inner filesystem.  In particular a NUL
 that disappears in normalisation (`"z\x00/../b"`) is never seen by the parent. -/
 theorem stepOpen_norm {σ : Type} (F : Wrap.FS σ) (sub : List Name) (hs : Clean sub) (s : σ) (op : Op)
-    (hall : ∀ p ∈ op.paths, ∃ cs, resolve (splitSlash p) = some cs) :
+    (hnn : noNul op) (hall : ∀ p ∈ op.paths, ∃ cs, resolve (splitSlash p) = some cs) :
     Wrap.Sub.stepOpen (absOf sub) F s op = Wrap.Sub.stepOpen (absOf sub) F s (mapPaths normPath op) := by
   have hd : ∀ p ∈ op.paths, Wrap.Sub.delegate (absOf sub) (normPath p) = Wrap.Sub.delegate (absOf sub) p ∧
       Wrap.isRootPath (normPath p) = Wrap.isRootPath p := by
     intro p hp
     obtain ⟨cs, hr⟩ := hall p hp
-    obtain ⟨_, hr'⟩ := normPath_of_resolve hr
-    exact ⟨by rw [delegate_of_resolve hs hr, delegate_of_resolve hs hr'],
+    obtain ⟨hnp, hr'⟩ := normPath_of_resolve hr
+    have hn' : '\x00' ∉ normPath p := by
+      rw [hnp]
+      apply nul_not_mem_absOf
+      intro c hc hm
+      rcases TreeLemmas.foldl_step_mem _ _ _ hr c hc with h' | h'
+      · cases h'
+      · exact hnn p hp (TreeLemmas.mem_of_mem_splitOn '/' p c h' _ hm)
+    exact ⟨by rw [delegate_of_resolve hs (hnn p hp) hr, delegate_of_resolve hs hn' hr'],
       by rw [isRootPath_of_resolve hr, isRootPath_of_resolve hr']⟩
   cases op
   case close => rfl
@@ -548,7 +507,7 @@ theorem stepOpen_framed (hc : s.closed = false) (hwf : s.root.wf = true) (op : O
   have d1 : ∀ (p : Str) (mk : Str → Op), (∀ q, (mk q).paths = [q]) → (∀ q, mk q ≠ .close) →
       (∀ q, rootSpecial (mk q) = false) → Fr s sub (Wrap.direct1 (Wrap.Sub.delegate (absOf sub)) Ref.step s p mk).1 := by
     intro p mk hp hne hrs
-    rcases delegate_cases sub hcs p with ⟨cs, hr, hd, _⟩ | ⟨_, hd, _⟩
+    rcases delegate_cases sub hcs p with ⟨cs, _, hr, hd, _⟩ | ⟨_, _, hd⟩
     · simp only [Wrap.direct1, hd]
       refine call _ (hne _) ?_
       intro q hq; rw [hp] at hq; simp at hq; subst hq
@@ -558,8 +517,8 @@ theorem stepOpen_framed (hc : s.closed = false) (hwf : s.root.wf = true) (op : O
       (∀ x y, rootSpecial (mk x y) = false) →
       Fr s sub (Wrap.direct2 (Wrap.Sub.delegate (absOf sub)) Ref.step s a b mk).1 := by
     intro a b mk hp hne hrs
-    rcases delegate_cases sub hcs a with ⟨ca, hra, hda, _⟩ | ⟨_, hda, _⟩
-    · rcases delegate_cases sub hcs b with ⟨cb, hrb, hdb, _⟩ | ⟨_, hdb, _⟩
+    rcases delegate_cases sub hcs a with ⟨ca, _, hra, hda, _⟩ | ⟨_, _, hda⟩
+    · rcases delegate_cases sub hcs b with ⟨cb, _, hrb, hdb, _⟩ | ⟨_, _, hdb⟩
       · simp only [Wrap.direct2, hda, hdb]
         refine call _ (hne _ _) ?_
         intro q hq; rw [hp] at hq; simp at hq
@@ -572,7 +531,7 @@ theorem stepOpen_framed (hc : s.closed = false) (hwf : s.root.wf = true) (op : O
   | close => exact h0
   | getinfo p =>
     simp only [Wrap.Sub.stepOpen, Wrap.stepOpen, Wrap.getinfo]
-    rcases delegate_cases sub hcs p with ⟨cs, hr, hd, hroot⟩ | ⟨_, hd, _⟩
+    rcases delegate_cases sub hcs p with ⟨cs, _, hr, hd, hroot⟩ | ⟨_, _, hd⟩
     · simp only [hd, hroot]
       have hq := (query_same s (absOf (sub ++ cs))).2.1
       generalize Ref.step s (.getinfo (absOf (sub ++ cs))) = r at hq
@@ -584,7 +543,7 @@ theorem stepOpen_framed (hc : s.closed = false) (hwf : s.root.wf = true) (op : O
     · simp only [hd]; exact h0
   | isempty p =>
     simp only [Wrap.Sub.stepOpen, Wrap.stepOpen, Wrap.isempty]
-    rcases delegate_cases sub hcs p with ⟨cs, hr, hd, _⟩ | ⟨_, hd, _⟩
+    rcases delegate_cases sub hcs p with ⟨cs, _, hr, hd, _⟩ | ⟨_, _, hd⟩
     · simp only [hd]
       have hq := (query_same s (absOf (sub ++ cs))).2.2
       generalize Ref.step s (.listdir (absOf (sub ++ cs))) = r at hq
@@ -596,7 +555,7 @@ theorem stepOpen_framed (hc : s.closed = false) (hwf : s.root.wf = true) (op : O
     · simp only [hd]; exact h0
   | removedir p =>
     simp only [Wrap.Sub.stepOpen, Wrap.stepOpen, Wrap.removedir]
-    rcases delegate_cases sub hcs p with ⟨cs, hr, hd, hroot⟩ | ⟨_, hd, hroot⟩
+    rcases delegate_cases sub hcs p with ⟨cs, _, hr, hd, hroot⟩ | ⟨_, _, hd⟩
     · simp only [hd, hroot]
       by_cases hcs' : cs = []
       · simp only [hcs', decide_true]; exact h0
@@ -604,10 +563,15 @@ theorem stepOpen_framed (hc : s.closed = false) (hwf : s.root.wf = true) (op : O
         refine call _ (by simp) ?_
         intro q hq; simp [Op.paths] at hq; subst hq
         exact under_of_resolve _ hr (fun _ => hcs')
-    · simp only [hroot]; exact h0
+    · rcases isRootPath_cases p with ⟨_, hroot⟩ | ⟨cs, _, hroot⟩
+      · simp only [hroot]; exact h0
+      · simp only [hroot, hd]
+        by_cases hcs' : cs = []
+        · simp only [hcs', decide_true]; exact h0
+        · simp only [hcs', decide_false]; exact h0
   | removetree p =>
     simp only [Wrap.Sub.stepOpen, Wrap.stepOpen, Wrap.removetree]
-    rcases delegate_cases sub hcs p with ⟨cs, hr, hd, hroot⟩ | ⟨_, hd, hroot⟩
+    rcases delegate_cases sub hcs p with ⟨cs, _, hr, hd, hroot⟩ | ⟨_, _, hd⟩
     · simp only [hd, hroot]
       by_cases hcs' : cs = []
       · subst hcs'
@@ -624,11 +588,13 @@ theorem stepOpen_framed (hc : s.closed = false) (hwf : s.root.wf = true) (op : O
         refine call _ (by simp) ?_
         intro q hq; simp [Op.paths] at hq; subst hq
         exact under_of_resolve _ hr (fun _ => hcs')
-    · simp only [hroot]; exact h0
+    · rcases isRootPath_cases p with ⟨_, hroot⟩ | ⟨cs, _, hroot⟩
+      · simp only [hroot]; exact h0
+      · simp only [hroot, hd]; exact h0
   | copy a b ow =>
     simp only [Wrap.Sub.stepOpen, Wrap.stepOpen, Wrap.copy]
-    rcases delegate_cases sub hcs a with ⟨ca, hra, hda, _⟩ | ⟨_, hda, _⟩
-    · rcases delegate_cases sub hcs b with ⟨cb, hrb, hdb, _⟩ | ⟨_, hdb, _⟩
+    rcases delegate_cases sub hcs a with ⟨ca, _, hra, hda, _⟩ | ⟨_, _, hda⟩
+    · rcases delegate_cases sub hcs b with ⟨cb, _, hrb, hdb, _⟩ | ⟨_, _, hdb⟩
       · simp only [hda, hdb]
         have hgo : Fr s sub (Ref.step s (.copy (absOf (sub ++ ca)) (absOf (sub ++ cb)) true)).1 := by
           refine call _ (by simp) ?_
@@ -654,8 +620,8 @@ theorem stepOpen_framed (hc : s.closed = false) (hwf : s.root.wf = true) (op : O
     · simp only [hda]; exact h0
   | copydir a b c =>
     simp only [Wrap.Sub.stepOpen, Wrap.stepOpen, Wrap.copydir]
-    rcases delegate_cases sub hcs a with ⟨ca, hra, hda, _⟩ | ⟨_, hda, _⟩
-    · rcases delegate_cases sub hcs b with ⟨cb, hrb, hdb, _⟩ | ⟨_, hdb, _⟩
+    rcases delegate_cases sub hcs a with ⟨ca, _, hra, hda, _⟩ | ⟨_, _, hda⟩
+    · rcases delegate_cases sub hcs b with ⟨cb, _, hrb, hdb, _⟩ | ⟨_, _, hdb⟩
       · simp only [hda, hdb]
         have hgo : Fr s sub (Wrap.copydirGo Ref.step (absOf (sub ++ ca)) (absOf (sub ++ cb)) s).1 := by
           simp only [Wrap.copydirGo]
